@@ -72,7 +72,7 @@ class EventLog:
     def __init__(self, keep=True, subst=()):
         self._h = hashlib.sha256()
         self.n = 0
-        self.keep = keep
+        self.keep = keep or bool(os.environ.get("VERIF_TRACE_DIR"))
         self.events = []
         self.subst = list(subst)  # (real_path, placeholder) pairs applied to the text
 
@@ -98,7 +98,12 @@ class EventLog:
         return self.n - 1
 
     def digest(self):
-        return self._h.hexdigest()
+        d = self._h.hexdigest()
+        tdir = os.environ.get("VERIF_TRACE_DIR")
+        if tdir:      # debugging aid: dump the full event log next to its digest
+            with open(os.path.join(tdir, d + ".log"), "w") as f:
+                f.write("\n".join(self.events) + "\n")
+        return d
 
 
 # ----------------------------------------------------------------------------- violations
@@ -164,6 +169,12 @@ def _child_main(job, wfd):
     except OSError:
         pass
     import faulthandler
+    import gc
+    # When the cyclic collector runs depends on allocation counters inherited from the parent, which differ with the
+    # number of workers: finalisers (e.g. Tornado closing a dropped connection) would fire at different points of a
+    # run.  The simulator owns that choice: automatic collection is off, engines call gc.collect() at fixed points.
+    gc.collect()
+    gc.disable()
     if not os.environ.get("VERIF_DEBUG"):
         # helper processes (git ...) spawned by the system under test inherit fd 2; keep the check's output clean
         dn = os.open(os.devnull, os.O_WRONLY)
